@@ -40,6 +40,16 @@ def run(prog, rep, tier):
     r15_4(prog, rep)
     r15_5(prog, rep)
     r15_6(prog, rep)
+    # a categorical response (plain variable or call) gets its level order by the same code as any categorical term:
+    # sorted for undeclared data, the declared order otherwise (C04's R4.3, reported here as R15.2)
+    from . import C04
+    sub = type(rep)(rep.prop)
+    C04.r4_3(prog, sub)
+    for it in sub.items:
+        it = dict(it)
+        it["rule"] = "R15.2"
+        rep.items.append(it)
+        rep.counts["R15.2"] = rep.counts.get("R15.2", 0) + 1
     from . import shared
     shared.dtype_narrowing(prog, rep, "R15.7", fns={q for q in prog.functions if q.startswith("formulae.transforms.")})
     rep.floor("R15.1", 3)
